@@ -116,6 +116,16 @@ def layouts(ctx):
         fs[nm + ".json"] = sc
         mp[idv] = ("example.com/p%d" % i, "p%d/gen.go" % i)
     out.append(("id-spellings", fs, mp, [sorted(fs), ["f5.json"]], None))
+    # a chain through sub-directories whose middle file has a root without `type` (such a root is emitted by the generator made for the reference):
+    # main.json -> lib/mid.json -> leaf.json, every id with its own package; with and without an unrelated lib/leaf.json next to the working directory
+    MAIN = {"$id": "http://x/main", "type": "object", "properties": {"mid": {"$ref": "lib/mid.json"}, "n": {"type": "string"}}}
+    MID = {"$id": "http://x/mid", "properties": {"leaf": {"$ref": "leaf.json"}, "k": {"type": "integer"}}, "required": ["leaf"]}
+    LEAF = {"$id": "http://x/leaf", "type": "object", "properties": {"v": {"type": "string", "minLength": 1}}, "required": ["v"]}
+    DECOY = {"$id": "http://x/decoy", "type": "object", "properties": {"w": {"type": "integer"}}}
+    chain = {"schemas/main.json": MAIN, "schemas/lib/mid.json": MID, "schemas/lib/leaf.json": LEAF}
+    cmaps = {"http://x/main": ("example.com/cm", "cm/main.go"), "http://x/mid": ("example.com/cmid", "cmid/mid.go"), "http://x/leaf": ("example.com/cleaf", "cleaf/leaf.go")}
+    out.append(("chain-typeless-middle", chain, cmaps, [["schemas/main.json"]], None))
+    out.append(("chain-typeless-middle+decoys", dict(chain, **{"../lib/leaf.json": DECOY, "lib/leaf.json": DECOY, "schemas/leaf.json": DECOY}), cmaps, [["schemas/main.json"]], "chain-typeless-middle"))
     # two ids mapped to ONE file of one package under different spellings of its path: the file holds both schemas' code, in every order
     for si, (sp1, sp2) in enumerate((("pk/gen.go", "./pk/gen.go"), ("pk/gen.go", "pk/../pk/gen.go"), ("./pk//gen.go", "pk/gen.go"))):
         out.append(("one-file-two-spellings-%d" % si, {"p.json": P2, "q.json": Q2}, {"http://x/p": ("example.com/pk", sp1), "http://x/q": ("example.com/pk", sp2)},
